@@ -41,7 +41,7 @@ ReqCodings == {"nobody", "ident0", "ident", "chunked", "invalid"}
 Statuses == {"100", "101", "2xx", "407", "4xx"}
 
 NewPTx == [rp |-> NOTSTARTED, sp |-> NOTSTARTED, m |-> "UNK", p09 |-> FALSE, rc |-> "unk",
-          st |-> "none", sc |-> "unk", dec |-> "unk", live |-> TRUE, c100 |-> 0]
+          st |-> "none", sc |-> "unk", dec |-> "unk", qdec |-> "none", live |-> TRUE, c100 |-> 0]
 
 InitP == [in_state |-> "REQ_IDLE", out_state |-> "RES_IDLE", in_status |-> "OPEN", out_status |-> "OPEN",
           txs |-> <<>>, in_tx |-> 0, out_tx |-> 0, onti |-> 0, odoate |-> FALSE,
@@ -99,6 +99,15 @@ SetIst(s) == Set("in_status", s) SetOst(s) == Set("out_status", s)
 SetRp(i, v) == SetTx(i, "rp", v) SetSp(i, v) == SetTx(i, "sp", v)
 
 HasReqBody(p, i) == p.txs[i].rc \in {"ident0", "ident", "chunked"}
+\* request body data through htp_tx_req_process_body_data_ex: plain -> one callback whose failure is ERROR; with a request decompressor
+\* (htp_config_set_request_decompression, off by default: explored in trace mode only) -> zero or more callbacks whose failures are swallowed
+ReqDecompPossible == TraceMode
+ReqBody(p, i, n) == CASE p.txs[i].qdec = "active" -> <<Cbs(n, i, "ign")>>
+                      [] p.txs[i].qdec = "gone" -> <<Ret("ERROR")>>
+                      [] OTHER -> <<Cb(n, i, "err")>>
+ReqBodyEnd(p, i) == CASE p.txs[i].qdec = "active" -> <<Cbs("request_body_data", i, "ign"), Cbs("request_body_end", i, "ign"), SetTx(i, "qdec", "gone")>>
+                      [] p.txs[i].qdec = "gone" -> <<Ret("ERROR")>>
+                      [] OTHER -> <<Cb("request_body_end", i, "err")>>
 
 \* body data through htp_tx_res_process_body_data_ex: plain -> one callback whose failure is ERROR;
 \* with a decompressor -> zero or more callbacks whose failures are swallowed
@@ -114,7 +123,7 @@ ResBodyEnd(p, i, f) == CASE p.txs[i].dec = "active" -> <<Cbs("response_body_data
 ReqCompleteProg(p, i) ==
   <<Tp("req_completing", i)>> \o
   (IF p.txs[i].rp # COMPLETE THEN
-     (IF HasReqBody(p, i) THEN <<Cb("request_body_end", i, "err")>> ELSE <<>>)
+     (IF HasReqBody(p, i) THEN ReqBodyEnd(p, i) ELSE <<>>)
      \o <<SetRp(i, COMPLETE), Cb("request_complete", i, "prop"), RecvFin("q")>>
    ELSE <<>>)
   \o <<SetIn(IF p.txs[i].p09 THEN "REQ_IGNORE_DATA_AFTER_HTTP_0_9" ELSE "REQ_IDLE"), Fin(i, "ign"), Set("in_tx", 0)>>
@@ -163,8 +172,9 @@ ReqOutcomes(p) ==
          ELSE {O(avail, <<Set("in_buf", p.in_buf \/ avail > 0), Ret("DATA_BUFFER")>>)}
               \cup {O(u, <<Ret("ERROR")>>) : u \in U(1, avail)}
               \cup (IF p.txs[i].rp = HEADERS
-                    THEN {O(u, <<Set("in_buf", FALSE), SetTx(i, "rc", c), RecvFin("q"), Cb("request_headers", i, "prop"),
-                                 SetIn("REQ_CONNECT_CHECK"), Ret("OK")>>) : u \in U(1, avail), c \in ReqCodings}
+                    THEN {O(u, <<Set("in_buf", FALSE), SetTx(i, "rc", c), SetTx(i, "qdec", qd), RecvFin("q"), Cb("request_headers", i, "prop"),
+                                 SetIn("REQ_CONNECT_CHECK"), Ret("OK")>>) : u \in U(1, avail), c \in ReqCodings,
+                                                                           qd \in (IF ReqDecompPossible THEN {"none", "active"} ELSE {"none"})}
                     ELSE {O(u, <<Set("in_buf", FALSE), Cb("request_trailer", i, "prop"), RecvFin("q"), SetIn("REQ_FINALIZE"), Ret("OK")>>) : u \in U(1, avail)})
     [] p.in_state = "REQ_CONNECT_CHECK" ->
          IF p.txs[i].m = "CONNECT"
@@ -185,8 +195,8 @@ ReqOutcomes(p) ==
            [] OTHER -> {O(0, <<Ret("ERROR")>>)}
     [] p.in_state = "REQ_BODY_IDENTITY" ->
          IF avail = 0 THEN {O(0, <<Ret("DATA")>>)}
-         ELSE {O(0, <<Cb("request_body_data", i, "err"), Use(avail), Ret("DATA")>>)}
-              \cup {O(0, <<Cb("request_body_data", i, "err"), Use(u), SetIn("REQ_FINALIZE"), Ret("OK")>>) : u \in UB(1, avail)}
+         ELSE {O(0, ReqBody(p, i, "request_body_data") \o <<Use(avail), Ret("DATA")>>)}
+              \cup {O(0, ReqBody(p, i, "request_body_data") \o <<Use(u), SetIn("REQ_FINALIZE"), Ret("OK")>>) : u \in UB(1, avail)}
     [] p.in_state = "REQ_BODY_CHUNKED_LENGTH" ->
          {O(avail, <<Set("in_buf", p.in_buf \/ avail > 0), Ret("DATA_BUFFER")>>)}
          \cup {O(u, <<Set("in_buf", FALSE), SetIn("REQ_BODY_CHUNKED_DATA"), Ret("OK")>>) : u \in U(1, avail)}
@@ -194,15 +204,15 @@ ReqOutcomes(p) ==
          \cup {O(u, <<Ret("ERROR")>>) : u \in U(1, avail)}
     [] p.in_state = "REQ_BODY_CHUNKED_DATA" ->
          IF avail = 0 THEN {O(0, <<Ret("DATA")>>)}
-         ELSE {O(0, <<Cb("request_body_data", i, "err"), Use(avail), Ret("DATA")>>)}
-              \cup {O(0, <<Cb("request_body_data", i, "err"), Use(u), SetIn("REQ_BODY_CHUNKED_DATA_END"), Ret("OK")>>) : u \in UB(1, avail)}
+         ELSE {O(0, ReqBody(p, i, "request_body_data") \o <<Use(avail), Ret("DATA")>>)}
+              \cup {O(0, ReqBody(p, i, "request_body_data") \o <<Use(u), SetIn("REQ_BODY_CHUNKED_DATA_END"), Ret("OK")>>) : u \in UB(1, avail)}
     [] p.in_state = "REQ_BODY_CHUNKED_DATA_END" ->
          {O(avail, <<Ret("DATA")>>)} \cup {O(u, <<SetIn("REQ_BODY_CHUNKED_LENGTH"), Ret("OK")>>) : u \in U(1, avail)}
     [] p.in_state = "REQ_FINALIZE" ->
          IF avail = 0 /\ ~(closed /\ p.in_buf) THEN {O(0, ReqCompleteProg(p, i) \o <<Ret("OK")>>)}
          ELSE (IF closed THEN {} ELSE {O(avail, <<Set("in_buf", p.in_buf \/ avail > 0), Ret("DATA_BUFFER")>>)})
               \cup {O(u, <<Set("in_buf", FALSE)>> \o ReqCompleteProg(p, i) \o <<Ret("OK")>>) : u \in U(0, avail)}   \* empty / method-looking line (peeked)
-              \cup {O(u, <<Set("in_buf", FALSE), Tp("req_finalize_body", i), Cb("request_body_junk", i, "err"), Ret("OK")>>) : u \in U(IF closed THEN 0 ELSE 1, avail)}  \* junk as body: the line end is consumed
+              \cup {O(u, <<Set("in_buf", FALSE), Tp("req_finalize_body", i)>> \o ReqBody(p, i, "request_body_junk") \o <<Ret("OK")>>) : u \in U(IF closed THEN 0 ELSE 1, avail)}  \* junk as body: the line end is consumed
     [] p.in_state = "REQ_IGNORE_DATA_AFTER_HTTP_0_9" -> {O(avail, <<Ret("DATA")>>)}
     [] OTHER -> {}
 
